@@ -92,8 +92,8 @@ theorem ctTranslate_error_cf : type_of% @HC.ctTranslate_error_cf := @HC.ctTransl
 /-- V3 refusal: the dyadic product needs both operands in NTT form -/
 theorem ctMultiplyDyadic_refuse : type_of% @HC.ctMultiplyDyadic_refuse := @HC.ctMultiplyDyadic_refuse
 
-/-- V3 residues: the dyadic product of canonical NTT-form ciphertexts of ANY sizes n1, n2 succeeds, has n1 + n2 − 1 canonical
-    polynomials, and residue (i, j) of polynomial k is Σ_{x + y = k} a_x[i][j] · b_y[i][j] mod q_i (the pairs are those of
+/-- V3 residues: the dyadic product of canonical NTT-form ciphertexts of ANY sizes n1, n2 with n1 + n2 − 1 ≤ 16 (a larger product is
+    refused as in the code: `ctMultiplyDyadic_refuse_size`) succeeds, has n1 + n2 − 1 canonical polynomials, and residue (i, j) of polynomial k is Σ_{x + y = k} a_x[i][j] · b_y[i][j] mod q_i (the pairs are those of
     `mulPairs`, characterised by `mulPairs_spec`) -/
 theorem ctMultiplyDyadic_spec : type_of% @HC.ctMultiplyDyadic_spec := @HC.ctMultiplyDyadic_spec
 
@@ -166,7 +166,8 @@ theorem CtCanon_of_ctValid : type_of% @HC.CtCanon.of_ctValid := @HC.CtCanon.of_c
     (statements, hypothesis bundles and non-vacuity instances: Heathcliff/Proofs/C02W.lean, section "Property theorems") -/
 
 /-- W1 (totality, shape, closed form).  For coefficient-form operands of ANY sizes ≥ 1 whose polynomials are canonical at a level
-    satisfying `MulOK`, `bfvMultiply` succeeds (no overflow / out-of-range branch is reachable); the result has
+    satisfying `MulOK` and whose destination size `resize` accepts (`ctResizeRefuses … = false`, i.e. 2 ≤ n1 + n2 − 1 ≤ 16; anything
+    else is refused: `bfvMultiply_refuse_size`), `bfvMultiply` succeeds (no overflow / out-of-range branch is reachable); the result has
     `size a + size b − 1` canonical polynomials, stays in coefficient form, keeps the correction factor, and every residue is the
     closed form `c02w_mulVal`. -/
 theorem bfvMultiply_ok : type_of% @HC.bfvMultiply_ok := @HC.bfvMultiply_ok
@@ -176,6 +177,13 @@ theorem bfvMultiply_canon : type_of% @HC.bfvMultiply_canon := @HC.bfvMultiply_ca
 
 /-- refusal: an operand in NTT form -/
 theorem bfvMultiply_refuse_ntt : type_of% @HC.bfvMultiply_refuse_ntt := @HC.bfvMultiply_refuse_ntt
+
+/-- refusal (size): `resize` comes first in `bfv_multiply`; a destination size n1 + n2 − 1 that it refuses (1, or more than 16)
+    is refused whatever the operands and the level are -/
+theorem bfvMultiply_refuse_size : type_of% @HC.bfvMultiply_refuse_size := @HC.bfvMultiply_refuse_size
+
+/-- refusal (size) of the dyadic product (`ckks_multiply`, dyadic step of `bgv_multiply`) -/
+theorem ctMultiplyDyadic_refuse_size : type_of% @HC.ctMultiplyDyadic_refuse_size := @HC.ctMultiplyDyadic_refuse_size
 
 /-- refusal: an operand without polynomials (after the lifts of both operands succeeded) -/
 theorem bfvMultiply_refuse_empty : type_of% @HC.bfvMultiply_refuse_empty := @HC.bfvMultiply_refuse_empty
@@ -311,7 +319,8 @@ theorem pred_mul_sound_small : type_of% @HC.pred_mul_sound_small := @HC.pred_mul
     result can be fed to the next `bfvMultiply_noise` -/
 theorem bfvMultiply_noiseLe : type_of% @HC.bfvMultiply_noiseLe := @HC.bfvMultiply_noiseLe
 
-/-- why X3 needs `n_a + n_b ≥ 3`: the product of two single-polynomial operands succeeds (size 1) and decryption REFUSES it -/
+/-- why X3 needs `n_a + n_b ≥ 3`: the product of two single-polynomial operands would have size 1, which `resize` refuses (as in
+    the code: `[Invalid argument] Size invalid.`), so nothing reaches decryption — for every level and all operands -/
 theorem bfvDecrypt_bfvMultiply_refuses_1x1 : type_of% @HC.bfvDecrypt_bfvMultiply_refuses_1x1 := @HC.bfvDecrypt_bfvMultiply_refuses_1x1
 
 /-- refusal: operands in NTT form never reach decryption -/
